@@ -445,6 +445,21 @@ def directed(name, quick):
                 P2.add(m, PB.M(ql, 'late'))
                 P2.act('Apply', m)
                 out.append(P2.steps)
+        # two sibling blocks measuring different qubits in parallel: unrolled, indices read (or not), then flattened -- flattening keeps
+        # the number of operations but re-lists the parallel measurements, so indices read before it must not survive it
+        for rep, obs, tags in itertools.product((1, 2), ((), ('full',), ('ops',)), ((('', ''), ('', '')), (('cycle', 'final'), ('cycle', 'final')))):
+            P = PB.Prog()
+            m = P.new()
+            for qb in (0, 1):
+                b = P.new(rep=rep)
+                P.add(b, PB.M(qb, tags[qb][0]))
+                P.add(b, PB.M(qb, tags[qb][1]))
+                P.add_sub(m, b)
+            P.act('Apply', m)
+            for o in obs:
+                P._step(a='Obs', c=m, what=o)
+            P.act('Flatten', m)
+            out.append(P.steps)
     if name == 'copyapplied':
         # a block of parallel operations, repeated, unrolled, THEN copied / nested; afterwards the registry duration changes
         for n in (2, 3):
